@@ -230,7 +230,9 @@ func TestC22(t *testing.T) {
 		"save, load<T>, copy<T>, borrow<T>+read, check<T>, type(at:), storagePaths, forEachStored (with early stop), move between accounts) over 3 accounts × 4 paths, "+
 		"7 value types × 12 type arguments (exact, AnyStruct, AnyResource, {I}, {RI}, [AnyStruct], unrelated), ~12% of transactions abort with a panic at the end or midway; every log line, error type and, after "+
 		"every execution, a ledger-only verification script (storagePaths, type, value, check<T> for all T on all 12 cells) are compared with a Go map model on both engines. "+
-		"Non-trivial: the history contains a transaction that failed/aborted after mutating storage, a type-mismatching access, and touches ≥ 2 accounts. Distinct by history.")
+		"Non-trivial: the history contains a transaction that failed/aborted after mutating storage, a type-mismatching access, and touches ≥ 2 accounts. Distinct by history. "+
+		"Stored values also come as T?, T?? and nil, type arguments as T, T?, T??; before the random histories the finite space of all (stored form × type argument × {load, copy, borrow, check, type}) "+
+		"cells is enumerated completely, one transaction per cell (counted as evaluations, never as non-trivial).")
 
 	if f := evid.ReplayFile(); f != "" {
 		var hist storgen.MapHistory
@@ -246,9 +248,18 @@ func TestC22(t *testing.T) {
 		return
 	}
 
+	if rec.Known("FG3") {
+		rec.ReportKnown("FG3", fg3Repro())
+	}
+	sweepMapCells(t, rec)
+
 	cfg := storgen.MapGenConfig{MaxExecs: 25, MaxOps: 5}
 	rapid.Check(t, func(rt *rapid.T) {
 		hist := storgen.GenMapHistory(storgen.FromRapid(rt), cfg)
+		if rec.Known("FG3") && mapHistoryHitsFG3(hist) {
+			rec.Excluded("FG3")
+			return
+		}
 		var facts mapFacts
 		for _, eng := range host.Engines {
 			msg, f := runMapHistory(hist, eng, nil)
@@ -291,4 +302,185 @@ func describeMapHistory(h storgen.MapHistory) []string {
 		out = append(out, fmt.Sprintf("%s{%s%s} => %s", kindOfExec(e), strings.Join(ops, "; "), tail, res))
 	}
 	return out
+}
+
+// ---- exhaustive (stored type × type argument) cell sweep -----------------------------
+
+// sweepForms are the stored values of the sweep: every kind plain, as T? and as T??, and nil declared as Int? / @R?.
+func sweepForms() []storgen.MapOp {
+	var out []storgen.MapOp
+	for k := 0; k < storgen.NKinds; k++ {
+		for _, f := range []int{storgen.FPlain, storgen.FSome, storgen.FSomeSome} {
+			out = append(out, storgen.MapOp{Op: "save", A: 1, P: 1, K: k, N: 7 + k, F: f})
+		}
+	}
+	out = append(out, storgen.MapOp{Op: "save", A: 1, P: 1, K: storgen.KInt, N: 3, F: storgen.FNil})
+	out = append(out, storgen.MapOp{Op: "save", A: 1, P: 1, K: storgen.KR, N: 3, F: storgen.FNil})
+	return out
+}
+
+// sweepMapCells runs, for every stored form and every type argument T, T?, T?? (12 base types), the
+// operations load<T>, copy<T> (struct-kinded T), borrow<&T> (non-optional T), and once per form check<T>
+// for all T and type(at:), each as its own transaction on a fork of a ledger holding just that value, on
+// both engines, against the model (harness-side subtype relation). The space is finite and enumerated completely.
+func sweepMapCells(t *testing.T, rec *evid.Rec) {
+	type row struct{ Load, Copy, Borrow, Check []byte }
+	cols := []string{}
+	for td := 0; td <= storgen.MaxTArgDepth; td++ {
+		for ta := 0; ta < storgen.NTArgs; ta++ {
+			cols = append(cols, storgen.TArgString(ta, td))
+		}
+	}
+	nCols := len(cols)
+	matrix := map[string]*row{}
+	var order []string
+	cells, accepted, rejected := 0, 0, 0
+	copyOK := map[int]bool{storgen.KInt: true, storgen.KString: true, storgen.KArr: true, storgen.KS: true, storgen.KS2: true, storgen.TAnyStruct: true, storgen.TI: true, storgen.TArrAny: true}
+	for _, save := range sweepForms() {
+		dyn := storgen.DynOf(save.K, save.F)
+		name := dyn.String()
+		if save.F == storgen.FNil {
+			name += " (nil declared as " + storgen.KindName[save.K] + "?)"
+		}
+		rw := &row{Load: []byte(strings.Repeat(".", nCols)), Copy: []byte(strings.Repeat(".", nCols)), Borrow: []byte(strings.Repeat(".", nCols)), Check: []byte(strings.Repeat(".", nCols))}
+		matrix[name] = rw
+		order = append(order, name)
+		for _, eng := range host.Engines {
+			base, msg := mapBaseHost(eng)
+			if msg != "" {
+				rec.Violation(t, save, "%s", msg)
+			}
+			m0 := &storgen.MapModel{}
+			e0 := storgen.MapExec{Ops: []storgen.MapOp{save}}
+			x0 := m0.Step(e0)
+			r0 := base.Tx(e0.Source(), nil, mapSigners, host.Options{Engine: eng})
+			if msg := checkMapExec(0, e0, x0, r0); msg != "" {
+				rec.Violation(t, e0, "[%s] sweep: saving %s: %s\n%s", eng, name, msg, e0.Source())
+			}
+			if msg := verifyMapState(base, eng, m0.State); msg != "" {
+				rec.Violation(t, e0, "[%s] sweep: after saving %s: %s", eng, name, msg)
+			}
+			runCell := func(e storgen.MapExec, verify bool) storgen.MapExpect {
+				h := base.Fork()
+				m := &storgen.MapModel{State: m0.State}
+				x := m.Step(e)
+				r := h.Tx(e.Source(), nil, mapSigners, host.Options{Engine: eng})
+				if msg := checkMapExec(1, e, x, r); msg != "" {
+					rec.Violation(t, map[string]any{"stored": save, "exec": e}, "[%s] sweep cell (stored %s; %s): %s\n--- source:\n%s", eng, name, e.Ops[0], msg, e.Source())
+				}
+				if verify && x.Commits {
+					if msg := verifyMapState(h, eng, m.State); msg != "" {
+						rec.Violation(t, map[string]any{"stored": save, "exec": e}, "[%s] sweep cell (stored %s; %s): %s", eng, name, e.Ops[0], msg)
+					}
+				}
+				return x
+			}
+			mark := func(b []byte, col int, x storgen.MapExpect) {
+				if x.Fail == "" {
+					b[col] = '+'
+				} else {
+					b[col] = '-'
+				}
+			}
+			for td := 0; td <= storgen.MaxTArgDepth; td++ {
+				for ta := 0; ta < storgen.NTArgs; ta++ {
+					col := td*storgen.NTArgs + ta
+					op := storgen.MapOp{A: 1, P: 1, T: ta, TD: td, Generic: true}
+					op.Op = "load"
+					x := runCell(storgen.MapExec{Ops: []storgen.MapOp{op}}, true)
+					mark(rw.Load, col, x)
+					n := 1
+					if copyOK[ta] {
+						op.Op = "copy"
+						mark(rw.Copy, col, runCell(storgen.MapExec{Ops: []storgen.MapOp{op}}, false))
+						n++
+					}
+					if td == 0 {
+						op.Op = "borrow"
+						if rec.Known("FG3") && save.F == storgen.FNil && ta == storgen.TAnyResource {
+							rec.Excluded("FG3")
+							rw.Borrow[col] = 'x'
+						} else {
+							mark(rw.Borrow, col, runCell(storgen.MapExec{Ops: []storgen.MapOp{op}}, false))
+						}
+						n++
+					}
+					if storgen.SubDyn(dyn, ta, td) {
+						rw.Check[col] = '+'
+					} else {
+						rw.Check[col] = '-'
+					}
+					if eng == host.Engines[0] {
+						cells += n + 1
+						if x.Fail == "" {
+							accepted++
+						} else {
+							rejected++
+						}
+					}
+				}
+			}
+			// check<T> for every T in one transaction (never fails), then type(at:)
+			var ops []storgen.MapOp
+			for td := 0; td <= storgen.MaxTArgDepth; td++ {
+				for ta := 0; ta < storgen.NTArgs; ta++ {
+					ops = append(ops, storgen.MapOp{Op: "check", A: 1, P: 1, T: ta, TD: td})
+				}
+			}
+			ops = append(ops, storgen.MapOp{Op: "type", A: 1, P: 1}, storgen.MapOp{Op: "each", A: 1}, storgen.MapOp{Op: "paths", A: 1})
+			runCell(storgen.MapExec{Ops: ops}, false)
+		}
+		rec.Case(false, "sweep", name)
+		rec.Class("sweep/stored-form")
+	}
+	rows := map[string]any{}
+	for _, n := range order {
+		r := matrix[n]
+		rows[n] = map[string]string{"load": string(r.Load), "copy": string(r.Copy), "borrow": string(r.Borrow), "check": string(r.Check)}
+	}
+	rec.Extra("cell_matrix", map[string]any{
+		"legend":  "one character per type-argument column: '+' accepted by the model and by both engines, '-' rejected with StoredValueTypeMismatchError (check: false), '.' not applicable (copy needs a struct-kinded T, borrow a non-optional T), 'x' excluded (known finding)",
+		"columns": cols,
+		"rows":    rows,
+	})
+	rec.Extra("cell_sweep", map[string]any{"stored_forms": len(order), "type_arguments": nCols, "operation_cells_per_engine": cells,
+		"load_accepted": accepted, "load_rejected": rejected, "exhaustive": "all (stored form × type argument × {load, copy, borrow, check}) cells, both engines"})
+	rec.ClassN("sweep/operation-cells", int64(cells))
+	rec.Evals(int64(cells - len(order))) // every operation cell was executed (on both engines); the forms themselves were counted above
+}
+
+// mapHistoryHitsFG3 is the narrow predicate of finding FG3: a borrow<&AnyResource> that reaches a path holding a stored nil.
+func mapHistoryHitsFG3(hist storgen.MapHistory) bool {
+	m := &storgen.MapModel{}
+	for _, e := range hist.Execs {
+		scratch := &storgen.MapModel{State: m.State}
+		for i, o := range e.Ops {
+			if e.Inject.InBody() && e.Inject.Pos == i {
+				break
+			}
+			if c := scratch.State[o.A][o.P]; o.Op == "borrow" && o.T == storgen.TAnyResource && c != nil && c.F == storgen.FNil {
+				return true
+			}
+			if !scratch.Apply(o) {
+				break
+			}
+		}
+		m.Step(e)
+	}
+	return false
+}
+
+func fg3Repro() bool {
+	for _, eng := range host.Engines {
+		h, msg := mapBaseHost(eng)
+		if msg != "" {
+			return true
+		}
+		r := h.Tx(`transaction { prepare(a: auth(Storage) &Account) { let n: Int? = nil; a.storage.save(n, to: /storage/x); if a.storage.check<@AnyResource>(from: /storage/x) { let r = a.storage.borrow<&AnyResource>(from: /storage/x) } } }`,
+			nil, mapSigners[:1], host.Options{Engine: eng})
+		if r.Err != nil {
+			return true
+		}
+	}
+	return false
 }
